@@ -725,11 +725,30 @@ def language_transfer(E, fr):
         E.assumptions.add(f"language transfer: the inclusion proved as obligation C15/regex/{lab} is used for every slice text[lo:hi) of the document")
 
 
+def word_accumulator():
+    """name of the local of Lexer._read_word that accumulates the word: the one initialised with the empty string literal
+    (read from the current source, so that renaming it does not detach the loop contract)"""
+    import ast as _ast
+
+    from pyvc import extract
+
+    node, _, _ = extract.find(LEX + "_read_word")
+    names = [t.id for st in node.body if isinstance(st, _ast.Assign) and isinstance(st.value, _ast.Constant) and st.value.value == ""
+             for t in st.targets if isinstance(t, _ast.Name)]
+    if len(names) != 1:
+        raise X.Unsupported("Lexer._read_word: expected exactly one local initialised with '' (the word accumulator): contract needs re-anchoring")
+    return names[0]
+
+
 def register_lexer_chars(R):
     from pyvc import ext_C15_text as T
 
     T.install()
     fresh_str = lambda name: (lambda S, frame: T.SStr.fresh(S.eng, name))
+    try:
+        ACC = word_accumulator()
+    except Exception:  # reported when the carrier is verified (KeyError -> machinery error), not at import time
+        ACC = "token"
 
     # ------------------------------------------------------------- __init__
     def init_setup(S):
@@ -773,7 +792,7 @@ def register_lexer_chars(R):
 
     def token_so_far(E, v, o, entry=None):
         s, q = la(entry), la(v)
-        return z3.And(s == T.SKIP(la(o)), q >= s, T.is_text(v["token"], s, q))
+        return z3.And(s == T.SKIP(la(o)), q >= s, T.is_text(v[ACC], s, q))
 
     def token_chars(E, v, o, entry=None):
         j = z3.Int(fresh_name("j"))
@@ -789,7 +808,7 @@ def register_lexer_chars(R):
                          decreases="remaining_chars(self)"),
                  1: dict(invariant=[LWF, READER, ("token-is-the-text-from-the-first-non-blank-to-the-look-ahead", token_so_far),
                                     ("no-delimiter-in-the-token-so-far", token_chars), ("position-counts-the-characters-read", book)],
-                         rebind={"token": lambda eng, cur: T.SStr.fresh(eng, "token")}, decreases="remaining_chars(self)")},
+                         rebind={ACC: lambda eng, cur: T.SStr.fresh(eng, "token")}, decreases="remaining_chars(self)")},
           notes="abstract character stream; symbolic number of blanks and symbolic word length")
 
     # ----------------------------------------------------------- _read_line
@@ -852,7 +871,9 @@ def register_lexer_chars(R):
         val = tok(v).fields["value"]
         is_float = z3.And(ttype(v, "FLOAT"), T.inl(K["asc"], s, e), (to_z3(val, "real") == T.FVAL(s, e)) if kind_of_real(val) else z3.BoolVal(False))
         is_lit = z3.And(ttype(v, "LITERAL"), tval_text(v, s, e))
-        return z3.Implies(z3.Not(delim(T.CH(s))), z3.And(la(v) == e, z3.Or(is_float, is_lit), z3.Implies(T.inl(K["plain"], s, e), ttype(v, "FLOAT"))))
+        # which of the two: decided by the number test the code applies to the word (its LANGUAGE, read from the repository); the format bounds
+        # that language from both sides: a FLOAT token is a decimal number in its entirety, a plain decimal is a FLOAT token
+        return z3.Implies(z3.Not(delim(T.CH(s))), z3.And(la(v) == e, z3.If(T.inl(K["code"], s, e), is_float, is_lit), z3.Implies(T.inl(K["plain"], s, e), ttype(v, "FLOAT"))))
 
     def kind_of_real(val):
         from pyvc.values import kind_of
@@ -880,7 +901,8 @@ def register_lexer_chars(R):
                    ("open-close-and-bar-are-tokens-of-their-own", single_char_tokens),
                    ("comment-token-is-the-rest-of-the-line-and-the-next-token-starts-right-behind-its-line-break", comment_token),
                    ("word-token-is-the-WHOLE-maximal-run-of-non-delimiters-FLOAT-iff-it-is-a-number-with-its-value", word_token),
-                   ("token-position-is-the-lexer-position-which-counts-the-characters-read", next_book)],
+                   ("token-position-is-the-lexer-position-which-counts-the-characters-read", next_book),
+                   ("every-token-consumes-at-least-one-character", lambda E, v, o: la(v) > la(o))],
           notes="abstract character stream: the token and the new look-ahead are functions of the text from the old look-ahead on; "
                 "number test and float() through their languages (regex obligations C15/regex/*)")
 
